@@ -9,6 +9,7 @@ Definition ltb (x y : R) : bool := if Rlt_dec x y then true else false.
 Definition eqb (x y : R) : bool := if Req_EM_T x y then true else false.
 Definition absn := Rabs.
 Definition PIn : R := PI.
+Definition nrm (x : R) : R := x.
 Definition modn (x m : R) : R := x - m * IZR (Int_part (x / m)).
 Lemma leb_t a b : leb a b = true -> a <= b. Proof. unfold leb; destruct Rle_dec; congruence. Qed.
 Lemma leb_f a b : leb a b = false -> b < a. Proof. unfold leb; destruct Rle_dec; [congruence|lra]. Qed.
